@@ -265,6 +265,10 @@ class SettingsHistory(object):
         removed = [k for k in op["removed"] if k in data]
         for k in removed:
             del data[k]
+        # parameters of the older evo that no longer exist (the upgrade may keep or drop them; they are cleared afterwards)
+        obsolete = list(op.get("obsolete") or [])
+        for k in obsolete:
+            data[k] = 1
         evo_settings.write_to_json_file(self.path, data)
         self.version_path.write_text(_old_version(op["old_version"]))
         saved = (evo_settings.USER_ASSETS_VERSION_PATH, evo_settings.DEFAULT_PATH, evo_settings.USER_ASSETS_PATH)
@@ -281,6 +285,15 @@ class SettingsHistory(object):
             self.model[k] = copy.deepcopy(DEFAULT_SETTINGS_DICT[k])
         if self.version_path.read_text() != evo_settings.__version__:
             raise Mismatch("assets_version not updated by the upgrade", observed="version", after="upgrade")
+        if obsolete:
+            data = self.read()
+            missing = [k for k in removed if k not in data]
+            if missing:
+                raise Mismatch("upgrade of a settings file holding obsolete keys %s did not add the missing default keys %s" % (obsolete, missing),
+                               observed="key_set", after="upgrade")
+            for k in obsolete:
+                data.pop(k, None)
+            evo_settings.write_to_json_file(self.path, data)
         self.check("upgrade (removed %s)" % removed)
 
     def _op_container(self, op):
@@ -351,7 +364,8 @@ OPS = {
                                     "cli": st.booleans(), "yes": st.booleans()}),
     "merge": st.fixed_dictionaries({"op": st.just("merge"), "other": st_other, "soft": st.booleans(), "cli": st.booleans()}),
     "upgrade": st.fixed_dictionaries({"op": st.just("upgrade"), "removed": st.lists(st.sampled_from(KEYS), max_size=5, unique=True),
-                                      "old_version": st.sampled_from(["v1.0.0", "v1.30.0", "", "1.31.0", "patch", "minor", "patch"])}),
+                                      "old_version": st.sampled_from(["v1.0.0", "v1.30.0", "", "1.31.0", "patch", "minor", "patch", "v1.9.0", "v1.4.2", "v0.9.9", "v2.0.0"]),
+                                      "obsolete": st.lists(st.sampled_from(["plot_old_option", "legacy_flag", "tf_old", "zz_removed"]), max_size=4, unique=True)}),
     "container": st.fixed_dictionaries({"op": st.just("container"), "unknown": st.sampled_from(["foo", "plot_foo", "__x", "rmse"]), "other": st_other}),
 }
 
